@@ -24,7 +24,7 @@ def main():
     except core.Inconclusive as e:
         print('INCONCLUSIVE', e)
         return 2
-    res = core.run_verus(w, (['--rlimit', '40'] if '--rlimit' not in args else []) + args)
+    res = core.run_verus(w, (['--rlimit', '60'] if '--rlimit' not in args else []) + args)
     fails, hard = core.classify(w, res)
     for h in hard:
         print('HARD', h['kind'], h['message'])
